@@ -167,7 +167,7 @@ var chanProtocol = map[string]tabEntry{
 	"queryer.(*MultiOpQueryer).Subscribe | local chan struct{} of queryer.(*MultiOpQueryer).Subscribe | make":                   {1, "failed: signals the closer that nobody is going to listen"},
 	"queryer.(*MultiOpQueryer).Subscribe | local chan struct{} of queryer.(*MultiOpQueryer).Subscribe | close":                  {1, "on the error return only, never sent on"},
 	"queryer.(*MultiOpQueryer).Subscribe$2 | local chan error of queryer.(*MultiOpQueryer).Subscribe | send":                    {5, "exactly one handshake result per run (four failures, one success)"},
-	"queryer.(*MultiOpQueryer).Subscribe$2 | subscriptionEntry.respCh | send":                                                   {5, "events, upstream error payloads (list form, single-object form) and the reason why the stream ends (connection lost, undecodable frame), in arrival order"},
+	"queryer.(*MultiOpQueryer).Subscribe$2 | subscriptionEntry.respCh | send":                                                   {6, "events, upstream error payloads (list form, single-object form) and the reason why the stream ends (connection lost, undecodable frame, error frame without an error), in arrival order"},
 	"queryer.(*MultiOpQueryer).Subscribe$2$1 | subscriptionEntry.respCh | send":                                                 {1, "nil = upstream finished; sent only when the handshake had succeeded (somebody listens); inside a deferred function with nested recover"},
 }
 
@@ -346,12 +346,32 @@ func recoverProtected(ins ssa.Instruction) bool {
 		if lit == nil || lit.Blocks == nil || lit.Parent() != fn {
 			continue
 		}
+		// recover runs on every path through the literal (it is not behind a condition), the
+		// literal does not panic again, and no lock is held at the protected instruction (a
+		// recovered panic would leave it locked). (Second table audit: these were assumed.)
+		recovers, repanics := false, false
 		for _, i3 := range allInstrs(lit) {
-			if c, ok := i3.(*ssa.Call); ok {
-				if b, ok := c.Call.Value.(*ssa.Builtin); ok && b.Name() == "recover" {
-					return true
+			if c, ok := i3.(ssa.CallInstruction); ok {
+				if b, ok := c.Common().Value.(*ssa.Builtin); ok {
+					switch b.Name() {
+					case "recover":
+						every := true
+						for _, ret := range returnsOf(lit) {
+							if !instrDominates(i3, ret) {
+								every = false
+							}
+						}
+						if _, deferred := i3.(*ssa.Defer); !deferred && every {
+							recovers = true
+						}
+					case "panic":
+						repanics = true
+					}
 				}
 			}
+		}
+		if recovers && !repanics && len(analyseLocks(fn).before[ins]) == 0 {
+			return true
 		}
 	}
 	return false
@@ -388,6 +408,15 @@ var connWriters = map[string]bool{
 	"github.com/gobwas/ws/wsutil.WriteServerMessage": true, "github.com/gobwas/ws/wsutil.WriteClientMessage": true,
 	"github.com/gobwas/ws.WriteHeader": true, "github.com/gobwas/ws.WriteFrame": true,
 	"invoke:(net.Conn).Write": true, "(net.Conn).Write": true,
+	// the reading helpers of wsutil answer control frames (ping -> pong, close -> close) on the
+	// writer half of the same connection ("may handle and write control frames into the writer
+	// part"): a read loop is a writer too (second table audit, repro/audit5: a pong lands between
+	// header and payload of a data frame even when every explicit write holds a mutex)
+	"github.com/gobwas/ws/wsutil.ReadClientText": true, "github.com/gobwas/ws/wsutil.ReadServerText": true,
+	"github.com/gobwas/ws/wsutil.ReadClientBinary": true, "github.com/gobwas/ws/wsutil.ReadServerBinary": true,
+	"github.com/gobwas/ws/wsutil.ReadClientData": true, "github.com/gobwas/ws/wsutil.ReadServerData": true,
+	"github.com/gobwas/ws/wsutil.ReadClientMessage": true, "github.com/gobwas/ws/wsutil.ReadServerMessage": true,
+	"github.com/gobwas/ws/wsutil.ReadData": true, "github.com/gobwas/ws/wsutil.ReadMessage": true,
 }
 
 func ruleConnWriters(r *Run) {
@@ -445,8 +474,64 @@ func ruleConnWriters(r *Run) {
 		sort.Strings(ctxs)
 		return strings.Join(ctxs, "+")
 	}
+	// a goroutine context stands for several goroutines of ONE connection when its go statement
+	// can run more than once after the connection was made: it sits in a loop, or in a function
+	// called from inside a loop, of the code reachable from the function that makes the connection
+	severalFor := func(conn string) map[string]bool {
+		maker := "Upgrade"
+		if conn == "upstream connection" {
+			maker = "Dial"
+		}
+		var creators []*ssa.Function
+		for _, g := range r.P.Funcs {
+			for _, ins := range allInstrs(g) {
+				if ci, ok := ins.(ssa.CallInstruction); ok {
+					cn := calleeName(ci.Common())
+					if strings.Contains(cn, "gobwas/ws") && (strings.HasSuffix(cn, "."+maker) || strings.HasSuffix(cn, ")."+maker) || strings.HasSuffix(cn, "."+maker+"HTTP")) {
+						creators = append(creators, g)
+					}
+				}
+			}
+		}
+		region := r.P.CG.Reachable(creators, nil)
+		looped := map[*ssa.Function]bool{}
+		for g := range region {
+			for _, ins := range allInstrs(g) {
+				ci, ok := ins.(ssa.CallInstruction)
+				if !ok || !inAnyLoop(ins.Block()) {
+					continue
+				}
+				if _, isGo := ins.(*ssa.Go); isGo {
+					continue
+				}
+				for _, e := range r.P.CG.Out[g] {
+					if e.Site == ci {
+						for f := range r.P.CG.Reachable([]*ssa.Function{e.Callee}, nil) {
+							looped[f] = true
+						}
+					}
+				}
+			}
+		}
+		several := map[string]bool{}
+		for g := range region {
+			for _, ins := range allInstrs(g) {
+				gi, ok := ins.(*ssa.Go)
+				if !ok || !(inAnyLoop(gi.Block()) || looped[g]) {
+					continue
+				}
+				for _, e := range r.P.CG.Out[g] {
+					if e.Site == ssa.CallInstruction(gi) {
+						several["goroutine "+fnName(e.Callee)] = true
+					}
+				}
+			}
+		}
+		return several
+	}
 	n := 0
 	for conn, sites := range byConn {
+		several := severalFor(conn)
 		ctxs := map[string][]site{}
 		for _, s := range sites {
 			c := ctxOf(s.fn)
@@ -457,26 +542,40 @@ func ruleConnWriters(r *Run) {
 			names = append(names, c)
 		}
 		sort.Strings(names)
-		for _, c := range names {
-			// one obligation per (connection, writer context); sites are listed in the argument
-			var where []string
-			locked := true
-			for _, s := range ctxs[c] {
-				n++
-				where = append(where, r.P.pos(s.ins.Pos()))
-				la := analyseLocks(s.fn)
-				if len(la.before[s.ins]) == 0 {
-					locked = false
+		for _, ck := range names {
+			for _, kind := range []string{"write to ", "control-frame replies on "} {
+				c := ck
+				// one obligation per (connection, writer context, kind of write); sites are listed in the argument
+				var where []string
+				locked := true
+				for _, s := range ctxs[c] {
+					isReply := strings.Contains(calleeName(s.ins.(ssa.CallInstruction).Common()), "wsutil.Read")
+					if isReply != (kind != "write to ") {
+						continue
+					}
+					n++
+					where = append(where, r.P.pos(s.ins.Pos()))
+					la := analyseLocks(s.fn)
+					if len(la.before[s.ins]) == 0 {
+						locked = false
+					}
 				}
-			}
-			construct := "write to " + conn + " from " + c
-			switch {
-			case len(names) == 1:
-				r.OK(rule, "", construct, where[0], "only one goroutine context writes this connection")
-			case locked:
-				r.OK(rule, "", construct, where[0], "a mutex is held at every write of this context")
-			default:
-				r.Bad(rule, "", construct, where[0], "the "+conn+" is written from "+fmt.Sprint(len(names))+" goroutine contexts ("+strings.Join(names, "; ")+") without a common lock (this context writes at "+strings.Join(where, ", ")+"): wsutil writes a frame as header + payload in separate Write calls, so frames from different goroutines can interleave and the peer receives a corrupted message")
+				if len(where) == 0 {
+					continue
+				}
+				construct := kind + conn + " from " + c
+				switch {
+				case len(names) == 1 && !several[c]:
+					r.OK(rule, "", construct, where[0], "only one goroutine writes this connection (its go statement, if any, is not in a loop)")
+				case locked:
+					r.OK(rule, "", construct, where[0], "a mutex is held at every write of this context")
+				default:
+					what := "this context writes at "
+					if kind != "write to " {
+						what = "the reading helper of wsutil answers ping and close frames on the same connection, at "
+					}
+					r.Bad(rule, "", construct, where[0], "the "+conn+" is written from "+fmt.Sprint(len(names))+" goroutine contexts ("+strings.Join(names, "; ")+"; a context started in a loop stands for several goroutines) without a common lock ("+what+strings.Join(where, ", ")+"): wsutil writes a frame as header + payload in separate Write calls, so frames from different goroutines can interleave and the peer receives a corrupted message")
+				}
 			}
 		}
 	}
@@ -819,6 +918,77 @@ func ruleUpstreamForward(r *Run) {
 		}
 	}
 	r.AtLeast("R12b.err", "upstream error-frame cases in the reader", nErr, 1)
+	// R12b.err.empty: an error list taken from a decoded frame is handed on as "the upstream's
+	// errors" only after its length has been tested: a frame that decodes as an error frame with
+	// an empty list (`payload: []`) is not an error message, and handing it on gives the
+	// subscriber an event that carries neither data nor an error (second table audit).
+	nList := 0
+	for _, fn := range withClosures(sub) {
+		for _, ins := range allInstrs(fn) {
+			snd, ok := ins.(*ssa.Send)
+			if !ok {
+				continue
+			}
+			al, ok := unwrap(snd.X).(*ssa.Alloc)
+			if !ok || !strings.HasSuffix(al.Type().String(), "requests.Response") {
+				continue
+			}
+			for _, ref := range *al.Referrers() {
+				fa, ok := ref.(*ssa.FieldAddr)
+				if !ok || fieldOf(fa) == nil || fieldOf(fa).Name() != "Errors" {
+					continue
+				}
+				for _, r2 := range *fa.Referrers() {
+					st, ok := r2.(*ssa.Store)
+					if !ok || st.Addr != ssa.Value(fa) {
+						continue
+					}
+					ld, ok := unwrap(st.Val).(*ssa.UnOp)
+					if !ok || ld.Op != token.MUL {
+						continue // built here (a literal, FormatError): not taken from a frame
+					}
+					src, ok := ld.X.(*ssa.FieldAddr)
+					if !ok {
+						continue
+					}
+					nList++
+					guarded := false
+					for _, i2 := range allInstrs(fn) {
+						c, ok := i2.(*ssa.Call)
+						if !ok {
+							continue
+						}
+						if b, isB := c.Call.Value.(*ssa.Builtin); !isB || b.Name() != "len" {
+							continue
+						}
+						l2, ok := unwrap(c.Call.Args[0]).(*ssa.UnOp)
+						if !ok || l2.Op != token.MUL {
+							continue
+						}
+						s2, ok := l2.X.(*ssa.FieldAddr)
+						if !ok || s2.X != src.X || s2.Field != src.Field {
+							continue
+						}
+						for _, u := range *c.Referrers() {
+							bo, ok := u.(*ssa.BinOp)
+							if !ok {
+								continue
+							}
+							for _, u2 := range *bo.Referrers() {
+								if iff, ok := u2.(*ssa.If); ok && iff.Block().Dominates(snd.Block()) {
+									guarded = true
+								}
+							}
+						}
+					}
+					r.Check(guarded, "R12b.err.empty", fnName(fn), "decoded error list handed on", r.P.pos(snd.Pos()),
+						"the length of the decoded list is tested before the list is handed on as the upstream's errors",
+						"an error list decoded from an upstream frame is handed on without its length being tested: a frame such as {\"type\":\"data\",\"payload\":[]} decodes as an error frame with no errors and reaches the subscriber as an event with neither data nor an error")
+				}
+			}
+		}
+	}
+	r.AtLeast("R12b.err.empty", "decoded error lists handed on by the reader", nList, 1)
 }
 
 // ruleSubscriptionRegistry (R8e): an entry is put into the per-connection subscription
